@@ -174,3 +174,10 @@ contract("C11.value_text_always_judged", file=HVF, func="HedValidator.validate_u
              "C11.dispatch.unit_class_tag_by_unit_rule": "implies(text != '#' and original_tag.unit_class_tag and ' ' in stripped_value_of(original_tag, text),"
                                                          " any_in(result, lambda x: x.kind == 'UNITS_INVALID'))",
          })
+
+# C11 "a number followed by a unit ... is accepted" for every numeric literal (integers, decimals, exponents, signs): the pattern the
+# validator reads from class_regex.json for numericClass values accepts EXACTLY the decimal-numeral grammar - optional sign, digits with
+# an optional fraction or a fraction alone, optional exponent with optional sign - a data obligation decided as a regular-language equality
+contract("C11.numeric_class_pattern_is_the_decimal_numeral_grammar", file="hed/validator/util/class_regex.json", func="<regex-data>",
+         params={}, returns=None, enc="native", prop="C11", ghost={"json_path": ["class_words", "numericClass"], "no_frame": True},
+         ensures={"C11.numeral.pattern_language_is_sign_digits_fraction_exponent": r"^[+-]?(?:\d+\.?\d*|\.\d+)(?:[eE][+-]?\d+)?$"})
